@@ -49,17 +49,7 @@ def make_program(rnd):
 
 
 def build(prog):
-    mod, objs = M.build(dict(prog, suppliers=[]))
-    for (cc, sc, var, expr, stock) in prog.get('gold', []):
-        sec = objs[(cc, sc)]
-        sec.AddVariable(var, 'gold purchases', expr)
-        mod.ExternalSector['GOLD'].SetGoldPurchases(sec, var, stock)
-    for (mc, mcode, sc, scode, share) in prog.get('suppliers', []):
-        market = objs[(mc, mcode)]
-        home_bus = [o for (cc, code), o in objs.items() if cc == mc and code == [c for c in prog['countries'] if c['code'] == mc][0]['roles']['bus']][0]
-        market.AddSupplier(home_bus)
-        market.AddSupplier(objs[(sc, scode)], '%r*%s' % (share, 'SUP_' + mcode))
-    return mod, objs
+    return M.build(prog)
 
 
 def value(ts, text, k):
